@@ -65,3 +65,11 @@ Example C11_nonvacuous_flags :
       Ok [:: true; true; true; false; false; false]; ErrNoMv;
       Ok [:: true; false; false; false; false; false]].
 Proof. by []. Qed.
+
+(* ---- the code of xitorch/_utils/bcast.py as translated from /repo on this run (Gen/PyBcast.v): for two or more
+   shapes get_bcasted_dims IS the broadcast shape of Base/Shapes.v; with no shape it raises.  Statement:
+   Proofs/PyBcastProofs.v, translated_bcast_statement. ---- *)
+From XV Require Proofs.PyBcastProofs.
+Theorem C11_translated_bcast_is_model : PyBcastProofs.translated_bcast_statement.
+Proof. exact PyBcastProofs.translated_bcast. Qed.
+Print Assumptions C11_translated_bcast_is_model.
